@@ -8,151 +8,36 @@
   R17.5  location discipline (MIR): a KeyLocation is used only on the collection state `locate` computed it on
 """
 import re
-from .lib import astq, immut, mirq
-from .lib.facts import find_nodes, op_place, strip_generics, callee_name
+from .lib import immut, mirq
+from .lib.facts import op_place, op_local, strip_generics, callee_name
 
 FILES = ('src/builtin/mapping.rs', 'src/builtin/set.rs')
 
 
-def src(n):
-    return re.sub(r'\s+', '', n.get('s') or '')
-
-
-def skeleton(fn):
-    """ordered list of call / method names of a function body (type-independent shape)"""
-    out = []
-
-    def vis(n, ps):
-        if n.get('k') == 'mcall':
-            out.append('.' + n['method'])
-        elif n.get('k') == 'call' and n['func'].get('k') == 'path':
-            out.append(n['func']['path'].split('::')[-1])
-        elif n.get('k') == 'macro':
-            out.append('!' + n['name'].split('::')[-1])
-        elif n.get('k') == 'struct' or (n.get('k') == 'path' and re.search(r'KeyLocation::(\w+)$', n['path'])):
-            m = re.search(r'KeyLocation::(\w+)$', n.get('path', ''))
-            if m:
-                out.append('KeyLocation::' + m.group(1))
-    from .lib.facts import walk
-    walk(fn['body'], vis)
-    return out
-
-
 def run(ctx):
-    ast = ctx.ast
     ctx.explanation = ('Persistence by the immutability audit; pairing of every new-key insertion with one length increment and of every removal with '
                        'len-1 under a Found match; sibling agreement of the two locate routines; no empty bucket is ever stored (hash and size fold over buckets).')
     ctx.trusted = ['syn parse', 'rustc borrow checking: &mut methods cannot be applied to a value behind Rc']
     ctx.assumptions = ['behaviour under arbitrary consistent hash functions (value level) is NOT decided']
     r1 = ctx.rule('R17.1', 'values immutable after construction (shared audit)')
     immut.audit(ctx, r1)
-    fns = [(f, fn, im) for f, fn, im in astq.all_fns(ast) if f in FILES]
-    # updating methods clone first
-    for f, fn, im in fns:
-        if fn['name'] in ('with_update',):
-            def fresh(y):
-                if not (y.get('k') == 'let' and y['pat'].get('k') == 'pident' and y['pat'].get('mut') and y.get('init') is not None):
-                    return False
-                i = y['init']
-                if src(i) == 'self.clone()':
-                    return True
-                # Self::new(.., self.inner.clone(), ..): a new collection over a copy of the table
-                return i.get('k') == 'call' and src(i['func']) == 'Self::new' and any(src(a) == 'self.inner.clone()' for a in i['args'])
-            ok = bool(find_nodes(fn['body'], fresh))
-            r1.inst({'fn': fn['name'], 'file': f, 'clones_first': ok}, ok=ok)
+    # bulk updates receive the collection by shared reference: with rustc's borrow checking and the audit above they cannot write it
+    for bd in ctx.mir.bodies:
+        if re.search(r'builtin::(mapping::XMapping|set::XSet)::with_update$', bd.nid):
+            ty = bd.local_ty(1) or ''
+            ok = ty.startswith('&') and not ty.startswith('&mut')
+            r1.inst({'fn': bd.nid, 'receiver': ty[:40], 'shared_reference': ok}, ok=ok)
             if not ok:
-                r1.fail('%s/%s/no-clone' % (f, fn['name']), '%s:%d' % (f, fn['line']), 'bulk update does not start from a clone of the receiver')
+                r1.fail('%s/receiver' % bd.nid, mirq.site(bd, 0), 'bulk update does not take the collection by shared reference')
 
     # ---------------- R17.2
-    r2 = ctx.rule('R17.2', 'len is incremented exactly once per new key and never on overwrite; removals use len-1 under Found')
-    for f, fn, im in fns:
-        if True:
-            for m, ps in find_nodes(fn['body'], lambda y: y.get('k') == 'match'):
-                arms = {}
-                for a in m['arms']:
-                    mm = re.search(r'KeyLocation::(\w+)', re.sub(r'\s+', '', a['pat'].get('s') or ''))
-                    if mm:
-                        arms[mm.group(1)] = a
-                if not {'Found', 'Missing', 'Vacant'} <= set(arms):
-                    continue
-                for kind, a in arms.items():
-                    incs = find_nodes(a['body'], lambda y: y.get('k') == 'binary' and y['op'] == '+=' and re.fullmatch(r'\w+\.len', src(y['left'])) and src(y['right']) == '1')
-                    other = find_nodes(a['body'], lambda y: (y.get('k') == 'binary' and y['op'] in ('-=', '+=') or y.get('k') == 'assign') and re.fullmatch(r'\w+\.len', src(y['left'])))
-                    want = 0 if kind == 'Found' else 1
-                    ok = len(incs) == want and len(other) == len(incs)
-                    # the increment must not be skipped by an early `?`/return placed after the insertion... it must follow the insertion
-                    r2.inst({'file': f, 'fn': fn['name'], 'arm': kind, 'len_increments': len(incs)}, ok=ok, kind=(f, fn['name'], kind))
-                    if not ok:
-                        r2.fail('%s/%s/%s' % (f.split('/')[-1], fn['name'], kind), '%s:%d' % (f, a['line']), 'arm %s changes len %d time(s) (expected %d): length drifts from the number of keys' % (kind, len(other), want))
-    # removals
-    n_rm = 0
-    for f, fn, im in fns:
-        for c, ps in find_nodes(fn['body'], lambda y: y.get('k') == 'call' and re.search(r'(XMapping|XSet)::new$', y['func'].get('path', '')) and len(y['args']) == 4):
-            last = src(c['args'][3])
-            if re.search(r'\.len-1$', last):
-                n_rm += 1
-                # under a let-else / match on KeyLocation::Found
-                found = bool(find_nodes(fn['body'], lambda y: y.get('k') == 'let' and 'KeyLocation::Found' in re.sub(r'\s+', '', y['pat'].get('s') or '') and y.get('else') is not None and y['line'] < c['line']))
-                r2.inst({'file': f, 'fn': fn['name'], 'removal_builds_len_minus_1_after_Found': found}, ok=found, kind=(f, fn['name'], 'rm'))
-                if not found:
-                    r2.fail('%s/%s/removal' % (f.split('/')[-1], fn['name']), '%s:%d' % (f, c['line']), 'a collection is rebuilt with len-1 without a preceding KeyLocation::Found match')
-    if n_rm < 4:
-        r2.fail('anchor/removals', '-', 'expected the four removal natives (pop, discard, remove, discard)')
-    r2.need(8)
+    len_maintenance(ctx)
 
     # ---------------- R17.3
-    r3 = ctx.rule('R17.3', 'XMapping::locate and XSet::locate have the same shape')
-    locs = {f: fn for f, fn, im in fns if fn['name'] == 'locate' and im is not None}
-    if len(locs) != 2:
-        r3.fail('anchor/locate', '-', 'expected two locate functions')
-    else:
-        sk = {f: skeleton(fn) for f, fn in locs.items()}
-        a, b = sk[FILES[0]], sk[FILES[1]]
-        ok = a == b
-        r3.inst({'mapping_locate': a[:12], 'equal_shape': ok}, ok=ok)
-        if not ok:
-            diff = [(i, x, y) for i, (x, y) in enumerate(zip(a, b)) if x != y][:3]
-            r3.fail('locate/siblings', FILES[1], 'the two locate routines differ in shape at %s (lengths %d/%d)' % (diff, len(a), len(b)))
-        for f, s_ in sk.items():
-            need = ['.to_u64', '.eval_func_with_values', 'KeyLocation::Vacant', 'KeyLocation::Found', 'KeyLocation::Missing']
-            miss = [x for x in need if x not in s_]
-            n_calls = s_.count('.eval_func_with_values')
-            ok = not miss and n_calls == 2
-            r3.inst({'file': f, 'hash_then_eq_calls': n_calls, 'missing': miss}, ok=ok, kind=f)
-            if not ok:
-                r3.fail('%s/locate/shape' % f.split('/')[-1], f, 'locate lost a step: %s (function calls: %d)' % (miss, n_calls))
-        # eq is applied as eq_func(key, k): probe key first
-        for f, fn in locs.items():
-            vecs = [m for m, _ in find_nodes(fn['body'], lambda y: y.get('k') == 'macro' and y['name'] == 'vec' and len(y.get('args') or []) == 2)]
-            p1 = fn['inputs'][1]['pat'].get('name') if len(fn['inputs']) > 1 and 'pat' in fn['inputs'][1] else 'key'
-            ok = any(src(v['args'][0]).startswith('Ok(%s.clone())' % p1) for v in vecs)
-            r3.inst({'file': f, 'eq_called_as': 'eq(key, stored)'}, ok=ok, kind=(f, 'eqorder'))
-            if not ok:
-                r3.fail('%s/locate/eq-order' % f.split('/')[-1], f, 'eq_func is not applied as eq(key, stored_key)')
-    r3.need(4)
+    locate_summary(ctx)
 
     # ---------------- R17.4
-    r4 = ctx.rule('R17.4', 'no producer stores an empty bucket (hash / size fold over buckets)')
-    for f, fn, im in fns:
-        for c, ps in find_nodes(fn['body'], lambda y: y.get('k') == 'mcall' and y['method'] == 'insert' and len(y['args']) == 2 and 'dict' in src(y['recv'])):
-            val = c['args'][1]
-            vs = src(val)
-            # a bucket obtained by removing from another one
-            shrunk = ('.skip(' in vs or '.filter(' in vs or '.take(' in vs or '.remove(' in vs)
-            name = val.get('path') if val.get('k') == 'path' else None
-            if name:
-                for st, _ in find_nodes(fn['body'], lambda y: y.get('k') == 'let' and y['pat'].get('k') in ('pident', 'ptype') and y.get('init') is not None):
-                    pn = st['pat'] if st['pat'].get('k') == 'pident' else st['pat']['pat']
-                    if pn.get('name') == name:
-                        i2 = src(st['init'])
-                        shrunk = shrunk or ('.skip(' in i2 or '.filter(' in i2 or '.take(' in i2)
-            if not shrunk:
-                continue
-            guarded = any(p.get('k') == 'if' and 'is_empty()' in src(p['cond']) and src(p['cond']).startswith('!') for p in ps)
-            r4.inst({'file': f, 'fn': fn['name'], 'insert_of_shrunken_bucket_guarded': guarded}, ok=guarded, kind=(f, fn['name'], c['line'] - fn['line']))
-            if not guarded:
-                r4.fail('%s/%s/empty-bucket' % (f.split('/')[-1], fn['name']), '%s:%d' % (f, c['line']), 'a bucket from which an element was removed is stored without a non-emptiness test: an empty bucket changes hash() of an equal collection')
-    r4.need(4)
+    bucket_nonempty(ctx)
 
     # ---------------- R17.5
     location_discipline(ctx)
@@ -317,3 +202,355 @@ def location_discipline(ctx):
                 r5.inst({'fn': fn, 'use': short, 'receiver': 'another collection'}, ok=False)
                 r5.fail('%s/%s/other-collection' % (fn, short), where, 'a location computed on one collection is used on another one')
     r5.need(8)
+
+
+def bucket_nonempty(ctx):
+    """R17.4: hash() and size fold over all buckets of the table, so a stored bucket is never empty.  Every bucket handed to the
+    table (HashMap::insert, Entry::or_insert) is either a literal with at least one element or is stored only on the
+    `is_empty() == false` edge of a test of that very bucket."""
+    r4 = ctx.rule('R17.4', 'no producer stores an empty bucket (hash / size fold over buckets)')
+    for b in ctx.mir.bodies:
+        if b.file not in FILES:
+            continue
+        for bb, t in b.calls():
+            nm = strip_generics(callee_name(t) or '')
+            if not re.search(r'(HashMap::insert|Entry::or_insert)$', nm):
+                continue
+            vp = op_place(t['args'][-1])
+            if vp is None or not (b.local_ty(vp['l']) or '').startswith('std::vec::Vec<'):
+                continue
+            fn = strip_generics(ctx.mir.enclosing_fn(b)) if b.kind == 'closure' else b.nid
+            aliases, origins = mirq.move_origins(b, vp['l'])
+            def is_literal(o):
+                # vec![a, ..]: the boxed array [T; N] with N >= 1 turned into a Vec
+                if o[2] != 'call' or not strip_generics(callee_name(o[3]) or '').endswith(('::into_vec', 'box_assume_init_into_vec_unsafe')):
+                    return False
+                ap = op_place(o[3]['args'][0]) if o[3]['args'] else None
+                m = re.search(r';\s*(\d+)\]', b.local_ty(ap['l']) or '') if ap is not None else None
+                return bool(m) and int(m.group(1)) >= 1
+            literal = bool(origins) and all(is_literal(o) for o in origins)
+            if literal:
+                r4.inst({'fn': fn, 'stored_bucket': 'literal with elements'}, kind=(fn, 'literal', nm.split('::')[-1]))
+                continue
+            guarded = False
+            for d in b.dominators().get(bb, ()):
+                tm = b.term(d)
+                if tm['k'] != 'switch' or d == bb:
+                    continue
+                dl = op_local(tm['discr'])
+                if dl is None:
+                    continue
+                k, v = mirq.chase(b, dl)
+                if k != 'call' or not strip_generics(callee_name(v[1]) or '').endswith('::is_empty'):
+                    continue
+                rp = op_place(v[1]['args'][0])
+                if rp is None:
+                    continue
+                root = rp['l']
+                for _ in range(6):
+                    ds = b.defs().get(root, [])
+                    if len(ds) == 1 and ds[0][0] == 'stmt' and ds[0][3]['rv']['k'] in ('ref', 'use', 'copyderef'):
+                        q = ds[0][3]['rv'].get('place') or op_place(ds[0][3]['rv']['op'])
+                        if q is None:
+                            break
+                        root = q['l']
+                    else:
+                        break
+                if root not in aliases:
+                    continue
+                false_t = [x for val, x in tm['targets'] if val == '0']
+                if false_t and false_t[0] != tm['otherwise'] and mirq.dominates(b, false_t[0], bb):
+                    guarded = True
+            r4.inst({'fn': fn, 'stored_bucket': 'computed', 'stored_only_when_not_empty': guarded}, ok=guarded, kind=(fn, 'computed', bb))
+            if not guarded:
+                r4.fail('%s/empty-bucket' % fn, mirq.site(b, bb), 'a computed bucket is stored without a non-emptiness test of that bucket: an empty bucket changes hash() of an equal collection')
+    r4.need(6)
+
+
+KEYLOC = re.compile(r'builtin::(mapping|set)::KeyLocation$')
+
+
+def _discr_switches(body):
+    """switch blocks on the discriminant of a KeyLocation place -> (block, root local of the place)"""
+    out = []
+    for bb in range(len(body.blocks)):
+        tm = body.term(bb)
+        if tm['k'] != 'switch':
+            continue
+        dl = op_local(tm['discr'])
+        ds = body.defs().get(dl, []) if dl is not None else []
+        if len(ds) != 1 or ds[0][0] != 'stmt' or ds[0][3]['rv']['k'] != 'discr':
+            continue
+        pl = ds[0][3]['rv']['place']
+        root = pl['l']
+        for _ in range(6):
+            d2 = body.defs().get(root, [])
+            if len(d2) == 1 and d2[0][0] == 'stmt' and d2[0][3]['rv']['k'] in ('ref', 'copyderef') and not [e for e in d2[0][3]['rv']['place']['p'] if e != '*']:
+                root = d2[0][3]['rv']['place']['l']
+            else:
+                break
+        ty = (body.local_ty(root) or '').lstrip('&').replace('mut ', '')
+        if KEYLOC.search(strip_generics(ty)):
+            out.append((bb, root))
+    return out
+
+
+def _len_writes(body):
+    """(bb, idx, delta) for assignments to a `.len` field: delta = +1 when the value is old len + 1, None otherwise"""
+    out = []
+    for i, j, s in body.stmts():
+        if s['k'] != 'assign' or not any(isinstance(e, dict) and e.get('n') == 'len' for e in s['place']['p']):
+            continue
+        delta = None
+        rv = s['rv']
+        src_l = op_place(rv['op'])['l'] if rv['k'] == 'use' and op_place(rv['op']) is not None else None
+        for l in (mirq.backslice(body, [src_l]) if src_l is not None else ()):
+            for kind, dbb, idx, x in body.defs().get(l, []):
+                if kind == 'stmt' and x['rv']['k'] in ('bin', 'checkedbin') and x['rv']['op'] in ('Add', 'AddWithOverflow'):
+                    c = x['rv']['b'].get('const') if isinstance(x['rv']['b'], dict) else None
+                    pa = op_place(x['rv']['a'])
+                    if c and re.match(r'1(_usize)?$', c.get('s', '')) and pa is not None:
+                        delta = 1
+        if rv['k'] in ('bin', 'checkedbin') and rv['op'] in ('Add', 'AddWithOverflow'):
+            c = rv['b'].get('const') if isinstance(rv['b'], dict) else None
+            if c and re.match(r'1(_usize)?$', c.get('s', '')):
+                delta = 1
+        out.append((i, j, delta))
+    return out
+
+
+def len_maintenance(ctx):
+    """R17.2 on the MIR.  (a) In every body that writes a collection's `len`, each path from the examination of a KeyLocation to the
+    return (or back to the examination, in a loop) pairs every stored element with exactly one `len + 1`, stores nothing and leaves
+    len alone when the location is Found, and stores at most one element otherwise.  (b) A collection rebuilt with `len - 1` is
+    rebuilt only where a Found location has been established, in the rebuilding body or at every call site of it."""
+    mir = ctx.mir
+    r2 = ctx.rule('R17.2', 'len is incremented exactly once per new key and never on overwrite; removals use len-1 under Found')
+    STORE = re.compile(r'(std::vec::Vec::push|HashMap::insert|Entry::or_insert|Entry::or_insert_with)$')
+    for b in mir.bodies:
+        if b.file not in FILES:
+            continue
+        writes = _len_writes(b)
+        if not writes:
+            continue
+        fn = strip_generics(mir.enclosing_fn(b)) if b.kind == 'closure' else b.nid
+        for i, j, d in writes:
+            if d != 1:
+                r2.inst({'fn': fn, 'len_write': 'not len + 1'}, ok=False)
+                r2.fail('%s/len-write' % fn, mirq.site(b, i, j), 'len is written with something other than len + 1')
+        sw = _discr_switches(b)
+        inc_blocks = {}
+        for i, j, d in writes:
+            inc_blocks[i] = inc_blocks.get(i, 0) + 1
+        store_blocks = {}
+        for bb, t_ in b.calls():
+            if STORE.search(strip_generics(callee_name(t_) or '')) and 'ManagedXValue' in (b.local_ty(op_place(t_['args'][0])['l']) if op_place(t_['args'][0]) else ''):
+                store_blocks[bb] = store_blocks.get(bb, 0) + 1
+        firsts = [(bb, root) for bb, root in sw if not any(o != bb and r2_ == root and mirq.dominates(b, o, bb) for o, r2_ in sw)]
+        if not firsts:
+            r2.inst({'fn': fn, 'location_examined': False}, ok=False)
+            r2.fail('%s/len-without-location' % fn, mirq.site(b, writes[0][0], writes[0][1]), 'len is changed in a body that never examines a KeyLocation')
+            continue
+        names = {0: 'Missing', 1: 'Vacant', 2: 'Found'}
+        for start, root in firsts:
+            same = {bb for bb, r_ in sw if r_ == root}
+            results = set()
+            seen = set()
+            todo = [(start, frozenset(names), 0, 0, True)]
+            while todo:
+                bb, known, incs, sts, first = todo.pop()
+                key = (bb, known, incs, sts, first)
+                if key in seen or len(seen) > 40000:
+                    continue
+                seen.add(key)
+                if bb == start and not first:
+                    results.add((known, incs, sts, 'loop'))
+                    continue
+                incs2 = min(3, incs + inc_blocks.get(bb, 0))
+                sts2 = min(3, sts + store_blocks.get(bb, 0))
+                tm = b.term(bb)
+                if tm['k'] == 'return':
+                    results.add((known, incs2, sts2, 'return'))
+                    continue
+                if bb in same and tm['k'] == 'switch':
+                    explicit = set()
+                    for val, tgt in tm['targets']:
+                        v = int(val)
+                        explicit.add(v)
+                        if v in known:
+                            todo.append((tgt, frozenset([v]), incs2, sts2, False))
+                    rest = known - explicit
+                    if rest:
+                        todo.append((tm['otherwise'], frozenset(rest), incs2, sts2, False))
+                    continue
+                for s_ in b.succ(bb):
+                    if not b.is_cleanup(s_):
+                        todo.append((s_, known, incs2, sts2, False))
+            for v, nm_ in names.items():
+                mine = [r for r in results if r[0] == frozenset([v])]
+                if v == 2:
+                    ok = bool(mine) and all(r[1] == 0 and r[2] == 0 for r in mine)
+                    why = 'an existing key changes len or stores an element'
+                else:
+                    ok = bool(mine) and all(r[1] == r[2] <= 1 for r in mine) and any(r[1] == 1 for r in mine)
+                    why = 'a new key is not paired with exactly one len + 1 on some path (stored/len+1 per path: %s)' % sorted({(r[2], r[1]) for r in mine})
+                r2.inst({'fn': fn, 'location': nm_, 'paths': len(mine), 'stores_and_increments_per_path': sorted({(r[2], r[1]) for r in mine})}, ok=ok, kind=(fn, nm_))
+                if not ok:
+                    r2.fail('%s/%s' % (fn, nm_), mirq.site(b, start), 'location %s: %s: length drifts from the number of keys' % (nm_, why))
+            undecided = [r for r in results if len(r[0]) > 1 and (r[1] or r[2])]
+            if undecided:
+                r2.fail('%s/undecided' % fn, mirq.site(b, start), 'len or the table changes on a path that has not established the kind of location')
+    # (b) removals
+    n_rm = 0
+
+    def found_blocks(body):
+        out = []
+        for bb, root in _discr_switches(body):
+            tm = body.term(bb)
+            tg = [x for val, x in tm['targets'] if val == '2']
+            if tg and tg[0] != tm['otherwise'] and sum(1 for val, x in tm['targets'] if x == tg[0]) == 1:
+                out.append(tg[0])
+            elif not tg and {val for val, x in tm['targets']} == {'0', '1'}:
+                out.append(tm['otherwise'])
+        return out
+    for b in mir.bodies:
+        if b.file not in FILES:
+            continue
+        for bb, t_ in b.calls():
+            nm = strip_generics(callee_name(t_) or '')
+            if not re.search(r'builtin::(mapping::XMapping|set::XSet)::new$', nm) or len(t_['args']) != 4:
+                continue
+            ll = op_local(t_['args'][3])
+            if ll is None:
+                continue
+            minus1 = False
+            for l in mirq.backslice(b, [ll]):
+                for kind, dbb, idx, x in b.defs().get(l, []):
+                    if kind == 'stmt' and x['rv']['k'] in ('bin', 'checkedbin') and x['rv']['op'] in ('Sub', 'SubWithOverflow'):
+                        minus1 = True
+            if not minus1:
+                continue
+            n_rm += 1
+            fn = strip_generics(mir.enclosing_fn(b)) if b.kind == 'closure' else b.nid
+            ok, trail = mirq.guarded_interproc(mir, b, bb, found_blocks)
+            r2.inst({'fn': fn, 'rebuilt_with_len_minus_1_only_under_Found': ok}, ok=ok, kind=(fn, 'rm', n_rm))
+            if not ok:
+                r2.fail('%s/removal' % fn, mirq.site(b, bb), 'a collection is rebuilt with len - 1 where no Found location has been established (%s)' % '; '.join(trail)[:200])
+    if n_rm < 2:
+        r2.fail('anchor/removals', '-', 'expected the removal paths (pop / discard / remove) that rebuild with len - 1')
+    r2.need(8)
+
+
+DROPPING = re.compile(r'Iterator::(skip|take|step_by|filter|filter_map|skip_while|take_while|rev|nth|last)$')
+
+
+def _locate_summary(mir, b):
+    """what a locate routine does, read off its MIR and the MIR of the private helpers it calls (one level): the argument vectors
+    handed to the program's hash / equality functions by origin, the hash conversion, which KeyLocation variants are produced and
+    what their hash component comes from, and the adaptors applied to the bucket iteration."""
+    fam = [(b, None)]
+    for bb, t_ in b.calls():
+        nm = strip_generics(callee_name(t_) or '')
+        for h in mir.find(nm):
+            if h.file in FILES and h is not b and h.nid.split('::')[:-1] == b.nid.split('::')[:-1] and not re.search(r'::(new|iter|get)$', h.nid):
+                fam.append((h, (bb, t_)))
+    key_param = 2
+    u64s = {t_['dest']['l'] for _, t_ in b.calls() if strip_generics(callee_name(t_) or '').endswith('::to_u64') and not t_['dest']['p']}
+    buckets = {t_['dest']['l'] for _, t_ in b.calls() if re.search(r'HashMap::get$', strip_generics(callee_name(t_) or '')) and not t_['dest']['p']}
+
+    def origin(bx, site, local, depth=12):
+        cur = local
+        for _ in range(depth):
+            if 1 <= cur <= bx.d['argc'] and not bx.defs().get(cur):
+                if bx is b:
+                    return 'key' if cur == key_param else 'param%d' % cur
+                cbb, ct = site
+                ap = op_place(ct['args'][cur - 1]) if cur - 1 < len(ct['args']) else None
+                return origin(b, None, ap['l']) if ap is not None else 'const'
+            ds = bx.defs().get(cur, [])
+            if len(ds) != 1:
+                break
+            kind, dbb, idx, x = ds[0]
+            if kind == 'call':
+                nm = strip_generics(callee_name(x) or '')
+                if nm.endswith(('::clone', '::deref', '::as_ref', '::borrow')) and x['args'] and op_place(x['args'][0]) is not None:
+                    cur = op_place(x['args'][0])['l']
+                    continue
+                break
+            rv = x['rv']
+            if rv['k'] in ('ref', 'copyderef'):
+                cur = rv['place']['l']
+                continue
+            if rv['k'] in ('use', 'cast') and op_place(rv['op']) is not None:
+                cur = op_place(rv['op'])['l']
+                continue
+            if rv['k'] == 'agg' and rv.get('ak') == 'adt' and len(rv['ops']) == 1 and op_place(rv['ops'][0]) is not None:
+                cur = op_place(rv['ops'][0])['l']
+                continue
+            break
+        if bx is b and mirq.backslice(b, [cur]) & buckets:
+            return 'stored'
+        return 'other'
+    vectors = []
+    for bx, site in fam:
+        for i, j, s in bx.stmts():
+            if s['k'] == 'assign' and s['rv']['k'] == 'agg' and s['rv'].get('ak') == 'array' and 'ManagedXValue' in (s['rv'].get('ety') or ''):
+                vectors.append(tuple(origin(bx, site, op_place(o)['l']) if op_place(o) is not None else 'const' for o in s['rv']['ops']))
+    variants = {}
+    for i, j, s in b.stmts():
+        if s['k'] == 'assign' and s['rv']['k'] == 'agg' and KEYLOC.search(s['rv'].get('adt') or ''):
+            ol = op_place(s['rv']['ops'][0])['l'] if s['rv']['ops'] and op_place(s['rv']['ops'][0]) is not None else None
+            variants[s['rv']['v']] = bool(ol is not None and mirq.backslice(b, [ol]) & u64s)
+    n_calls = 0
+    drops = set()
+    for bx, site in fam:
+        for bb, t_ in bx.calls():
+            nm = strip_generics(t_.get('decl') or callee_name(t_) or '')
+            if nm.endswith('::eval_func_with_values'):
+                n_calls += 1
+            if DROPPING.search(nm):
+                drops.add(nm.split('::')[-1])
+    errs = sum(1 for bb, t_ in b.calls() if strip_generics(callee_name(t_) or '') == 'xvalue::ManagedXError::new')
+    return {'argument_vectors': sorted(vectors, key=len), 'program_function_calls': n_calls, 'hash_converted_with_to_u64': bool(u64s), 'conversion_failure_exits': errs,
+            'variants_with_hash_from_to_u64': variants, 'bucket_looked_up_by_hash': bool(buckets), 'position_dropping_adaptors': sorted(drops)}
+
+
+def locate_summary(ctx):
+    """R17.3 on the MIR: each locate calls the hash function on [key], converts with to_u64 (failure = error value), looks the bucket
+    up, calls the equality as eq(key, stored key) over the whole bucket, and produces Vacant / Found / Missing carrying that hash;
+    XMapping::locate and XSet::locate have the same summary (siblings)."""
+    mir = ctx.mir
+    r3 = ctx.rule('R17.3', 'XMapping::locate and XSet::locate: same summary; hash(key) -> to_u64 -> bucket -> eq(key, stored) over the whole bucket')
+    locs = [b for b in mir.bodies if re.search(r'builtin::(mapping::XMapping|set::XSet)::locate$', b.nid)]
+    if len(locs) != 2:
+        r3.fail('anchor/locate', '-', 'expected two locate functions')
+        return
+    sums = {}
+    for b in locs:
+        s = _locate_summary(mir, b)
+        sums[b.nid] = s
+        want_vec = [('key',), ('key', 'stored')]
+        short = b.nid.split('::')[-2]
+        ok = s['argument_vectors'] == want_vec
+        r3.inst({'fn': b.nid, 'argument_vectors': s['argument_vectors']}, ok=ok, kind=(b.nid, 'vectors'))
+        if not ok:
+            if sorted(map(sorted, s['argument_vectors'])) == sorted(map(sorted, want_vec)):
+                r3.fail('%s/locate/eq-order' % short, mirq.site(b, 0), 'eq_func is not applied as eq(key, stored_key): argument vectors %s' % s['argument_vectors'])
+            else:
+                r3.fail('%s/locate/arguments' % short, mirq.site(b, 0), 'hash / equality are not called on [key] and [key, stored key]: %s' % s['argument_vectors'])
+        ok = s['program_function_calls'] == 2 and s['hash_converted_with_to_u64'] and s['conversion_failure_exits'] >= 1 and s['bucket_looked_up_by_hash'] \
+            and s['variants_with_hash_from_to_u64'] == {'Vacant': True, 'Found': True, 'Missing': True}
+        r3.inst({'fn': b.nid, 'steps': {k: v for k, v in s.items() if k not in ('argument_vectors', 'position_dropping_adaptors')}}, ok=ok, kind=(b.nid, 'steps'))
+        if not ok:
+            r3.fail('%s/locate/shape' % short, mirq.site(b, 0), 'locate lost a step: %s' % {k: v for k, v in s.items() if k != 'argument_vectors'})
+        ok = not s['position_dropping_adaptors']
+        r3.inst({'fn': b.nid, 'whole_bucket_scanned': ok}, ok=ok, kind=(b.nid, 'scan'))
+        if not ok:
+            r3.fail('%s/locate/partial-scan' % short, mirq.site(b, 0), 'the bucket scan drops positions (%s): a stored key can be missed' % ', '.join(s['position_dropping_adaptors']))
+    a, b2 = [sums[b.nid] for b in locs]
+    ok = a == b2
+    r3.inst({'siblings_agree': ok}, ok=ok)
+    if not ok:
+        diff = {k: (a[k], b2[k]) for k in a if a[k] != b2[k]}
+        r3.fail('locate/siblings', FILES[1], 'the two locate routines differ: %s' % diff)
+    r3.need(7)
